@@ -452,10 +452,20 @@ func (self *Analyzer) functionLiteral(node pAst.FunctionLiteralExpression) ast.A
 		node.Span(),
 		pAst.FN_MODIFIER_NONE,
 	)
+	// The literal is analyzed in the middle of its enclosing function: remember that function and
+	// its loop depth so that `return`, `break` and `continue` following the literal are still
+	// checked against the enclosing function and so that loops around the literal do not make
+	// `break` / `continue` legal inside of it.
+	prevFunction := self.currentModule.CurrentFunction
+	prevLoopDepth := self.currentModule.LoopDepth
 	self.currentModule.CurrentFunction = &moduleFn
+	self.currentModule.LoopDepth = 0
 
 	// analyze body
 	analyzedBlock := self.block(node.Body, false)
+
+	self.currentModule.CurrentFunction = prevFunction
+	self.currentModule.LoopDepth = prevLoopDepth
 
 	// analyze return type
 	if err := self.TypeCheck(analyzedBlock.Type(), fnReturntype, TypeCheckOptions{
